@@ -102,6 +102,13 @@ func (a *CommitAgent) Step(s *Sim) {
 				if r.IntN(3) == 0 {
 					ids = append(ids, stablestaketypes.PoolId)
 				}
+				if len(ids) > 0 && r.IntN(4) == 0 {
+					// the list is a plain repeated field: the same pool named twice (or three times)
+					for n := 1 + r.IntN(2); n > 0; n-- {
+						ids = append(ids, ids[r.IntN(len(ids))])
+					}
+					s.Stats.Probe("claim_with_repeated_pool_id_submitted")
+				}
 				s.SendTx(u, "commit/masterchef_claim", &mastercheftypes.MsgClaimRewards{Sender: u.Addr.String(), PoolIds: ids})
 			case 1:
 				s.SendTx(u, "commit/estaking_withdraw_all", &estakingtypes.MsgWithdrawAllRewards{DelegatorAddress: u.Addr.String()})
